@@ -109,6 +109,13 @@ def _apply_cf(cf):
 def _live_job(scn, cf):
     _apply_cf(cf)
     g0 = engine.GIVEUP.count
+    # session mode: earlier scenarios (own worlds, unrelated objects) executed in the same process
+    # first -- process-global state that accumulates across *unrelated* work is history too
+    for earlier in scn.get("prefix", ()):
+        try:
+            engine.Run(earlier, oracles=(), reach=False).execute()
+        except engine.HarnessError:
+            pass
     run = engine.Run(scn, oracles=(), reach=False)
     run.execute()
     # the bookkeeping the reference jobs need: names bound / objects switched *before* each step
